@@ -723,6 +723,219 @@ def run_offline_scenario(ctx, sc):
         publish.DEFAULT_MUTABLE_MAX_SEGMENT_SIZE = saved_seg
 
 
+
+# ----------------------------------------------------------------------------- (e) the grid changes between check and repair
+
+def gen_gap(rng):
+    S = rng.randrange(3, 9)
+    k = rng.randrange(1, 4)
+    n = rng.randrange(k, min(6, S) + 1)
+    how = rng.choice(["repair", "repair", "check_and_repair"])
+    return {"family": "gap", "servers": S, "k": k, "n": n, "fmt": rng.choice("sm"), "sched": rng.randrange(1 << 30),
+            "policy": rng.choice(["fifo", "random", "lifo"]), "nver": rng.randrange(1, 3),
+            "predamage": rng.choice(["none", "delete-one"]) if how == "repair" else "delete-one",
+            "between": rng.choice(["server-leaves", "server-leaves", "share-deleted", "leaves-and-returns", "nothing"]),
+            "which": rng.randrange(64), "how": how, "verify": rng.random() < 0.4, "force": rng.random() < 0.3}
+
+
+def run_gap_scenario(ctx, sc):
+    """check, then the grid changes (a server that held a share leaves / a share file disappears / the server comes
+    back), then repair; for check_and_repair the change happens at the boundary between its two halves.
+    Monitor: a repair that reports success leaves N distinct shares of the best version on the servers that were
+    there for it, and a fresh check of those servers says healthy."""
+    import grid
+    from allmydata.mutable.publish import MutableData
+    from allmydata.mutable.repairer import MustForceRepairError
+    from allmydata.mutable import checker as CK
+    from allmydata.interfaces import SDMF_VERSION, MDMF_VERSION
+    from allmydata.monitor import Monitor
+    case = {"kind": "scenario", "sc": sc}
+    k, n = sc["k"], sc["n"]
+    try:
+        with grid.Runtime(seed=sc["sched"], policy=sc["policy"]) as rt:
+            g = mc.make_grid("c14g", rt, sc["servers"], 2, k, n)
+            try:
+                node = rt.wait(g.clients[0].create_mutable_file(
+                    MutableData(b"gap scenario, version 0 " * 3), version=MDMF_VERSION if sc["fmt"] == "m" else SDMF_VERSION,
+                    unique_keypair=mc.keypair()))
+                for j in range(1, sc["nver"]):
+                    rt.wait(node.overwrite(MutableData(b"gap scenario, version %d " % j * 3)))
+                si = node.get_storage_index()
+                files = g.share_files(si)
+                if sc["predamage"] == "delete-one" and len(files) > k:
+                    os.unlink(files[(sc["which"] + 1) % len(files)][2])
+                    files = g.share_files(si)
+                victim = files[sc["which"] % len(files)]            # (server, shnum, path) of a share of the best version
+                gone = set()
+
+                def change_grid():
+                    if sc["between"] in ("server-leaves", "leaves-and-returns") and victim[0] in g.storage:
+                        g.remove_server(victim[0])
+                        gone.add(victim[0])
+                        if sc["between"] == "leaves-and-returns":
+                            g.add_server(victim[0])
+                            gone.discard(victim[0])
+                    elif sc["between"] == "share-deleted" and os.path.exists(victim[2]):
+                        os.unlink(victim[2])
+                success, outcome = False, None
+                try:
+                    if sc["how"] == "repair":
+                        cr = rt.wait(node.check(Monitor(), verify=sc["verify"]))
+                        change_grid()
+                        rr = rt.wait(node.repair(cr, force=sc["force"]))
+                        success = bool(rr.get_successful())
+                    else:
+                        # the change happens when the check half is done and before the repair half starts: a
+                        # call-through wrapper at that boundary.  (A server that FAILS DURING the repair's own publish is
+                        # outside the statement's quantifier: Publish does not re-place the share of a request that
+                        # failed, so such a repair succeeds with N-1 shares.)
+                        orig_maybe = CK.MutableCheckAndRepairer._maybe_repair
+
+                        def maybe_repair(self_, pre):
+                            change_grid()
+                            return orig_maybe(self_, pre)
+                        CK.MutableCheckAndRepairer._maybe_repair = maybe_repair
+                        try:
+                            crr = rt.wait(node.check_and_repair(Monitor(), verify=sc["verify"]))
+                        finally:
+                            CK.MutableCheckAndRepairer._maybe_repair = orig_maybe
+                        success = bool(crr.get_repair_attempted() and crr.get_repair_successful())
+                    outcome = "ok" if success else "unsuccessful"
+                except grid.Stuck:
+                    raise
+                except MustForceRepairError:
+                    outcome = "MustForce"
+                except Exception as e:
+                    outcome = "error:" + mc.exc_name(e)
+                ctx.count("gap-%s-%s:%s" % (sc["how"], sc["between"], outcome))
+                # what the servers that were there for the repair hold now
+                by = {}
+                for (i, sh), cs in mc.disk_state(g, si).items():
+                    if i not in gone and cs and cs[0] != "?":
+                        by.setdefault((cs[1], cs[2]), set()).add(sh)
+                newest = max(by, key=lambda key: key[0]) if by else None
+                have = len(by.get(newest, ()))
+                ctx.case(("gap", sc["how"], sc["between"], outcome, k, n, sc["servers"], have))
+                if success:
+                    present = [i for i in g.storage if i not in gone]
+                    if have < n and present:
+                        ctx.violation("%s reported success; the best version (seq %s) has %d of %d distinct shares on the "
+                                      "servers that were present" % (sc["how"], newest and newest[0], have, n), case,
+                                      "repair-success-but-fewer-than-N-shares")
+                    try:
+                        cr2 = rt.wait(g.clients[1].create_node_from_uri(node.get_uri()).check(Monitor(), verify=False))
+                        if not cr2.is_healthy() and present:
+                            ctx.violation("%s reported success but a fresh check of the servers that were present says "
+                                          "unhealthy (%s)" % (sc["how"], cr2.get_summary()), case,
+                                          "repair-success-but-unhealthy-after")
+                    except grid.Stuck:
+                        raise
+                    except Exception as e:
+                        ctx.count("gap-postcheck-error:" + mc.exc_name(e))
+            finally:
+                g.close()
+    except grid.Stuck:
+        ctx.count("grid-stuck")
+    except Exception:
+        import traceback
+        ctx.disagree("check/repair-gap scenario could not be driven to the end", case, traceback.format_exc()[-800:], None)
+        ctx.count("grid-harness-exception")
+
+
+GAP_CORPUS = [
+    # C14-d: a server that held a share of the best version leaves between check and repair (both formats, +-verify),
+    # also at the boundary inside check_and_repair; and a share file that disappears in between
+    {"family": "gap", "servers": 5, "k": 2, "n": 4, "fmt": "s", "sched": 41, "policy": "fifo", "nver": 2,
+     "predamage": "none", "between": "server-leaves", "which": 1, "how": "repair", "verify": False, "force": False},
+    {"family": "gap", "servers": 5, "k": 2, "n": 4, "fmt": "m", "sched": 42, "policy": "random", "nver": 1,
+     "predamage": "delete-one", "between": "server-leaves", "which": 0, "how": "repair", "verify": True, "force": False},
+    {"family": "gap", "servers": 6, "k": 1, "n": 3, "fmt": "s", "sched": 43, "policy": "fifo", "nver": 1,
+     "predamage": "delete-one", "between": "server-leaves", "which": 0, "how": "check_and_repair", "verify": False,
+     "force": False},
+    {"family": "gap", "servers": 6, "k": 2, "n": 4, "fmt": "m", "sched": 44, "policy": "lifo", "nver": 2,
+     "predamage": "delete-one", "between": "server-leaves", "which": 2, "how": "check_and_repair", "verify": True,
+     "force": False},
+    {"family": "gap", "servers": 5, "k": 2, "n": 4, "fmt": "s", "sched": 45, "policy": "fifo", "nver": 1,
+     "predamage": "none", "between": "share-deleted", "which": 1, "how": "repair", "verify": False, "force": False},
+]
+
+
+
+# ----------------------------------------------------------------------------- (f) damage inside the encrypted private key
+
+def gen_privkey(rng):
+    k = rng.randrange(1, 4)
+    return {"family": "privkey", "k": k, "n": rng.randrange(k, 7), "servers": rng.randrange(2, 8), "fmt": rng.choice("sm"),
+            "sched": rng.randrange(1 << 30), "policy": rng.choice(["fifo", "random", "lifo"]), "which": rng.randrange(64),
+            "off": rng.randrange(8, 1200), "order": rng.choice([["check", "car"], ["car", "check"], ["car"], ["check"]]),
+            "size": rng.choice([30, 100, 3000])}
+
+
+def run_privkey_scenario(ctx, sc):
+    """one byte flipped inside a share's encrypted private key (outside the signed prefix, invisible to the servermap
+    update); check(verify=True) and the check half of check_and_repair(verify=True) must both say unhealthy"""
+    import grid
+    from allmydata.mutable.publish import MutableData
+    from allmydata.interfaces import SDMF_VERSION, MDMF_VERSION
+    from allmydata.monitor import Monitor
+    from allmydata.storage.mutable import MutableShareFile
+    case = {"kind": "scenario", "sc": sc}
+    try:
+        with grid.Runtime(seed=sc["sched"], policy=sc["policy"]) as rt:
+            g = mc.make_grid("c14p", rt, sc["servers"], 2, sc["k"], sc["n"])
+            try:
+                node = rt.wait(g.clients[0].create_mutable_file(
+                    MutableData(bytes(i % 251 for i in range(sc["size"]))),
+                    version=MDMF_VERSION if sc["fmt"] == "m" else SDMF_VERSION, unique_keypair=mc.keypair()))
+                files = g.share_files(node.get_storage_index())
+                (i, sh, path) = files[sc["which"] % len(files)]
+                base = MutableShareFile(path).DATA_OFFSET
+                if sc["fmt"] == "m":
+                    start = 123                      # MDMF: enc_privkey follows the 123-byte header
+                else:
+                    start = data_region(path)[2]     # SDMF: offset of enc_privkey from the share's offset table
+                if not flip(path, base + start + sc["off"]):
+                    return
+                for step in sc["order"]:
+                    try:
+                        if step == "check":
+                            cr = rt.wait(node.check(Monitor(), verify=True))
+                        else:
+                            cr = rt.wait(node.check_and_repair(Monitor(), verify=True)).get_pre_repair_results()
+                    except grid.Stuck:
+                        raise
+                    except Exception as e:
+                        ctx.count("privkey-%s-error:%s" % (step, mc.exc_name(e)))
+                        break
+                    ctx.case(("privkey", sc["fmt"], step, cr.is_healthy(), sc["k"], sc["n"]))
+                    ctx.count("privkey-%s-%s-healthy:%s" % (sc["fmt"], step, cr.is_healthy()))
+                    if cr.is_healthy():
+                        ctx.violation("%s(verify=True) says healthy (%d good shares) although the encrypted private key of share "
+                                      "%d on server %d is damaged" % ("check" if step == "check" else "check_and_repair",
+                                                                      cr.get_share_counter_good(), sh, i), case,
+                                      "verify-misses-corrupt-encprivkey")
+                    if step == "car":
+                        break                        # the repair half has rewritten the shares
+            finally:
+                g.close()
+    except grid.Stuck:
+        ctx.count("grid-stuck")
+    except Exception:
+        import traceback
+        ctx.disagree("privkey scenario could not be driven to the end", case, traceback.format_exc()[-800:], None)
+        ctx.count("grid-harness-exception")
+
+
+PRIVKEY_CORPUS = [
+    {"family": "privkey", "k": 3, "n": 10, "servers": 10, "fmt": "m", "sched": 5, "policy": "fifo", "which": 3, "off": 777,
+     "order": ["car"], "size": 100},
+    {"family": "privkey", "k": 3, "n": 10, "servers": 10, "fmt": "m", "sched": 5, "policy": "fifo", "which": 3, "off": 777,
+     "order": ["check"], "size": 100},
+    {"family": "privkey", "k": 2, "n": 4, "servers": 4, "fmt": "s", "sched": 6, "policy": "fifo", "which": 1, "off": 43,
+     "order": ["check", "car"], "size": 100},
+]
+
+
 def truth_before_unrec(before, rec_before):
     return [(key, shs) for key, shs in before.items() if key not in rec_before]
 
@@ -774,6 +987,12 @@ def run(ctx):
         elif c["sc"].get("family") == "offline":
             run_offline_scenario(ctx, c["sc"])
             return
+        elif c["sc"].get("family") == "gap":
+            run_gap_scenario(ctx, c["sc"])
+            return
+        elif c["sc"].get("family") == "privkey":
+            run_privkey_scenario(ctx, c["sc"])
+            return
         else:
             sc = c["sc"]
             sc["damage"] = [tuple(d) for d in sc["damage"]]
@@ -798,6 +1017,14 @@ def run(ctx):
             run_offline_scenario(ctx, json.loads(json.dumps(sc)))
         for _ in range(0 if corpus_only else ctx.budget(40, 600)):
             run_offline_scenario(ctx, gen_offline(ctx.rng))
+        for sc in GAP_CORPUS:
+            run_gap_scenario(ctx, dict(sc))
+        for _ in range(0 if corpus_only else ctx.budget(40, 600)):
+            run_gap_scenario(ctx, gen_gap(ctx.rng))
+        for sc in PRIVKEY_CORPUS:
+            run_privkey_scenario(ctx, dict(sc))
+        for _ in range(0 if corpus_only else ctx.budget(15, 300)):
+            run_privkey_scenario(ctx, gen_privkey(ctx.rng))
     model = ctx.model(acc["lines"])
     if model is not None:
         # need_repair is internal to the checker object on the grid path: compare the other fields
